@@ -20,6 +20,59 @@ def judge(part, b, res, text, site, kind):
                        {'behaviour': text, 'concretisation': kind, 'observed': out})
 
 
+LP_KEEP = [20]
+
+
+def lp_observer(got, pred, sp, call, sg, prog, ctx, part):
+    """Linear problems enumerated by TLC for C05: whatever optyx reports OPTIMAL must satisfy the constraints and
+    bounds the spec derives from the program (exact terms), on the LP route."""
+    import hashlib, warnings
+    from fractions import Fraction as Fr
+    from .. import interp, progjudge
+    from ..interp import name_of
+    from .c16 import fbound
+    if pred['kind'] != 'PR' or not sp['islp']:
+        return
+    h = int(hashlib.sha1((prog + 'c06' + str(common.seed())).encode()).hexdigest()[:8], 16)
+    from .c08 import stratified_keep
+    if not stratified_keep(ctx, part, h, LP_KEEP[0], per_shape=1):
+        return
+    names = [name_of(n) for n in sp['vars']]
+    for m in ('auto', ('highs-ds', 'highs-ipm', 'linprog')[h // 11 % 3]):
+        with warnings.catch_warnings():
+            warnings.simplefilter('ignore')
+            try:
+                s = got.solve(method=m)
+            except Exception:
+                bump(part, 'lp_solve_raises')
+                return
+        part['evaluations'] += 1
+        bump(part, 'lp_statuses', s.status.value)
+        if s.status.value != 'optimal':
+            continue
+        pt = {n: Fr(s.values[n]) for n in names if n in s.values}
+        worst = None
+        for c in pred['cons']:
+            try:
+                v = float(interp.eval_exact(c['den'], pt, {}))
+            except Exception:
+                continue
+            viol = max(0.0, v) if c['sense'] == '<=' else max(0.0, -v) if c['sense'] == '>=' else abs(v)
+            if viol > 1e-6 * (1 + abs(v)):
+                worst = ('constraint %s %s 0 violated by %.3g' % (interp.term_str(c['den']), c['sense'], viol))
+        for n, b in zip(names, sp['bounds']):
+            lb, ub = fbound(b[0]), fbound(b[1])
+            x = s.values.get(n)
+            if x is None:
+                continue
+            if (lb is not None and x < lb - 1e-6 * (1 + abs(lb))) or (ub is not None and x > ub + 1e-6 * (1 + abs(ub))):
+                worst = 'bound of %s violated (%r not in [%r, %r])' % (n, x, lb, ub)
+        if worst:
+            pviolation(part, 'Solve(%s/lp)' % m, 'OPTIMAL at an infeasible point (TLC-enumerated linear problem)',
+                       {'program': prog, 'detail': worst, 'values': s.values}, own=part['_own'], prefixes=part['_prefixes'])
+            return
+
+
 REAL_METHODS = ['auto', 'SLSQP', 'trust-constr', 'L-BFGS-B', 'TNC', 'COBYLA', 'Nelder-Mead', 'Powell', 'BFGS', 'CG', 'Newton-CG', 'linprog', 'highs-ds']
 
 
@@ -49,7 +102,11 @@ def families(rng):
             t = optyx.Variable('t', lb=-3, ub=3)
             u = optyx.Variable('u', lb=-3, ub=3)
             return optyx.Problem().minimize(t + u if not nl else optyx.exp(t) + u ** 2).subject_to(t * t + u * u <= -a)
-        for name, f in (('contradictory', contradictory), ('constraint-vs-bound', con_vs_bound), ('bound-active', bound_active),
+        def undefined_constraint(nl):
+            # the constraint function is undefined (NaN) where the unconstrained minimum lies
+            t = optyx.Variable('t')
+            return optyx.Problem().minimize((t + a) ** 2 if nl else t).subject_to(optyx.sqrt(t) >= b / 8)
+        for name, f in (('undefined-constraint', undefined_constraint), ('contradictory', contradictory), ('constraint-vs-bound', con_vs_bound), ('bound-active', bound_active),
                         ('feasible', feasible), ('nonlinear-infeasible', nonlinear_infeasible)):
             for nl in (False, True):
                 out.append(('%s/%s/a=%s,b=%s' % (name, 'nlp' if nl else 'lp', a, b), f, nl))
@@ -105,11 +162,15 @@ def run(report, tier):
         batch += part.pop('batch')
         report.merge(part)
     validate_traces(report, batch, 'C06 real solvers', keep=())
+    from .. import apirun
+    LP_KEEP[0] = 20 if tier == 'quick' else 3
+    apirun.run_config(report, 'MC_C05', observer=lp_observer, report_kinds=())
     return report.finish(
         rule='TLC enumerates every complete solve behaviour of MC_Sched without faults (15 methods x strict x 3 models x {no, one} '
              'constraint x every solver outcome class (success, message class, point feasible / violating a constraint / violating a bound) '
              'incl. the SLSQP retry); each is replayed into the real solve() through a stubbed minimize / linprog seam on 2 '
              'concretisations; the recorded executions are validated against TraceSolve.tla (status must be allowed by the outcome; '
              'C06_OptimalFeasible evaluated in every state). Plus generated feasible / infeasible problems x 13 methods with the real SciPy, '
-             'recorded and validated the same way. distinct_nontrivial = distinct behaviours + problems.',
+             'recorded and validated the same way; and a seeded sample of the linear problems TLC enumerates for C05 solved on the LP route, every OPTIMAL '
+             'point checked against the exact constraint terms and bounds of the spec. distinct_nontrivial = distinct behaviours + problems.',
         exhaustive=True)
